@@ -12,14 +12,18 @@ CHECK = {
             "plus 9 fixed minimal histories (the shortest history of each input class resync was found to mishandle, and controls). Load schedule: the pushes are split at a "
             "seeded point; a seeded subset (none / some / all) of the principals is loaded (GET _user/_role + one authenticated request) between the two halves and another "
             "subset after the last push; 0-2 late documents change only role() grants; nobody else is read before the resync, so principals reach the resync with channels "
-            "and roles independently computed-and-valid or pending invalidation (stored state read raw and counted). The reference for a single leaf is "
+            "and roles independently computed-and-valid or pending invalidation (stored state read raw and counted). race part (db package): 80 (1500) batches of 8 documents written under f1 = channel(doc.a)+access(doc.u, doc.a), the collection switched to f2 = channel(doc.b)+access(doc.u, doc.b), then each document resynced by ResyncDocument (the per-document step of the resync run; with and without a pre-fetched copy, with and without regenerated sequence) while 0-1 acknowledged gateway writes (update or delete, changing or keeping doc.b) are committed after the pre-fetch and 0-2 inside the compute->CAS windows of the resync's own write attempts; the stored metadata is read without import side effects: current revision = last acknowledged write, sequence not lower, active channels and grant = f2 of the current body, second resync changes nothing. The reference for a single leaf is "
             "the new function evaluated on that revision's body alone (written as a document of its own in the fresh database); the reference for principals and visibility "
             "is the fresh database.",
     "parts": [
         {"name": "resync", "pkg": "rest", "run": "^TestVerif_C18_Resync$", "race": False, "timeout_q": 900, "timeout_t": 3300, "env": _ENV},
+        {"name": "race", "pkg": "db", "run": "^TestVerif_C18_Race$", "race": False, "timeout_q": 600, "timeout_t": 2400},
     ],
     "min_evals": 40,
     "min_counters": {
+        "race.documents_checked": 400,
+        "race.racing_writes_acknowledged": 300,
+        "race.second_resyncs_checked": 400,
         "resync.resyncs_run": 23,
         "resync.second_resyncs_checked": 11,
         "resync.documents_compared": 47,
